@@ -104,7 +104,9 @@ def main():
                 from scipy.special import logsumexp as _lse
                 with np.errstate(divide="ignore"):
                     mix = _lse(lq, b=w[np.newaxis, :], axis=1)
-                bad |= ~(np.abs(mix - s["logQ"]) <= 1e-9 * np.maximum(1.0, np.abs(mix)))
+                # same tolerances as harness/c03.py: float32 accuracy between a resume that re-evaluates the flows and the
+                # next iteration, 1e-9 otherwise
+                bad |= ~(np.abs(mix - s["logQ"]) <= (2e-5 if flags["recomputed"] else 1e-9) * np.maximum(1.0, np.abs(mix)))
             else:
                 bad[:] = True
             bad |= ~(np.abs(s["logW"] - (s["logU"] - s["logQ"])) <= 1e-12 * np.maximum(1.0, np.abs(s["logW"])))
@@ -124,7 +126,13 @@ def main():
         return {"store": name, "rows": rows, "n": int(len(s)), "vec": vec,
                 "live": None if st.live_points_indices is None else int(len(st.live_points_indices))}
 
+    flags = {"recomputed": False}
+
     def snapshot(ns, where):
+        if where == "resumed":
+            flags["recomputed"] = not cfg["kwargs"].get("save_log_q", False)
+        elif where == "update_evidence":
+            flags["recomputed"] = False
         snap = {"where": where, "iteration": int(ns.iteration),
                 "counts": {int(k): int(v) for k, v in ns.sample_counts.items()},
                 "weights": {int(k): float(v) for k, v in ns.proposal.weights.items()},
